@@ -660,6 +660,11 @@ func racePass(env hres.Env) map[string]any {
 		os.WriteFile(overlay, b, 0644)
 	}
 	cmd := exec.Command("go1.26.8", "test", "-race", "-vet=off", "-tags", "verif", "-overlay", overlay, "-count=1", "-v", "-timeout", "40m", "-run", "^TestRaceBodies$", "./h/c07")
+	if raceBin := os.Getenv("VERIF_SELF_RACE"); raceBin != "" {
+		// the driver built this harness with -race (same overlay): run that binary instead of building here
+		cmd = exec.Command(raceBin, "-test.run", "^TestRaceBodies$", "-test.v", "-test.timeout", "40m", "-test.count", "1")
+		out["race_binary"] = raceBin
+	}
 	cmd.Dir = filepath.Join(verif, "mc")
 	cmd.Env = append(os.Environ(), "GOFLAGS=-mod=mod", "GOPROXY=off", "GOSUMDB=off", "GOTOOLCHAIN=local", "GOWORK=off",
 		"GOCACHE="+filepath.Join(verif, ".gocache"), "CGO_ENABLED=1", "VERIF_RACE_ROUNDS=200")
